@@ -45,6 +45,12 @@ def run(chk):
         raise vlib.FrameworkError("vacuous: success was never trivial in the plan made for that clause")
     nontrivial(chk, allruns)
     shutil.rmtree(d, ignore_errors=True)
+    # the obstructions and rows legality is stated over are those the caller declared, whatever the order of the setter calls
+    results, d, allruns, exe = tracecheck.record_and_validate(chk, "asan-ubsan", "record_proto", "api", chk.pick(200, 5000), {}, seed_offset=404)
+    tracecheck.attribute(chk, results, "C01", exe, "api", "asan-ubsan", d, exe_name="record_proto")
+    for _rid in allruns:
+        chk.count()
+    shutil.rmtree(d, ignore_errors=True)
     chk.cov["rule"] = ("exhaustive small scope (LegalizeCases.tla: 2 row levels x orientation patterns x optional split x optional fixed cell x up to 2 movable "
                        "cells with widths, heights 1-2 rows, polarities, targets) legalized twice by the real code; legalize executions on seeded random circuits of the C01 domain (split rows, gaps, orientation patterns, "
                        "multi-row cells, macros, turned cells, polarities, fixed cells anywhere, utilisation 5%-130%, random accepted "
